@@ -41,7 +41,8 @@ pub fn run(seed: u64, ntraces: usize) {
         let u1 = user_addr(4); let u2 = user_addr(5); let target = user_addr(6);
         let users = vec![owner.clone(), gop.clone(), relayer.clone(), u1.clone(), u2.clone(), target.clone()];
         let tok = b"TOK-123456".to_vec(); let tok2 = b"OTH-654321".to_vec();
-        for u in &users { w.add_user(u, 1_000_000); w.add_esdt(u, &tok, 1_000_000); w.add_esdt(u, &tok2, 1_000_000); }
+        let sft = b"SFT-abcdef".to_vec(); let sftk = |n: u64| { let mut k = sft.clone(); k.push(b'#'); k.extend_from_slice(&n.to_be_bytes()); k };
+        for u in &users { w.add_user(u, 1_000_000); w.add_esdt(u, &tok, 1_000_000); w.add_esdt(u, &tok2, 1_000_000); w.add_sft(u, &sft, 5, 1000); w.add_sft(u, &sft, 6, 1000); }
         let gw = sc_addr(0x10); let gov = sc_addr(0x11);
         let pool = Pool::new(); let mut tab = SigTab(vec![]);
         let set = SSet { signers: vec![SignerE { pk: pool.pk(0), key: Some(0), weight: bn(1) }], threshold: bn(1), nonce: vec![7u8; 32] };
@@ -55,7 +56,7 @@ pub fn run(seed: u64, ntraces: usize) {
         // the governance contract owns some EGLD for proposals with a native value
         let gov_funds: u64 = 500;
         w.r.blockchain_mock.state.accounts.get_mut(&gov).unwrap().egld_balance += bn(gov_funds);
-        let mut funds: Vec<Value> = users.iter().map(|u| json!([hx(u.as_bytes()), "1000000", [[hx(&tok), "1000000"], [hx(&tok2), "1000000"]]])).collect();
+        let mut funds: Vec<Value> = users.iter().map(|u| json!([hx(u.as_bytes()), "1000000", [[hx(&tok), "1000000"], [hx(&tok2), "1000000"], [hx(&sftk(5)), "1000"], [hx(&sftk(6)), "1000"]]])).collect();
         funds.push(json!([hx(gov.as_bytes()), gov_funds.to_string(), []]));
         let init = json!({"gov": hx(gov.as_bytes()), "gw": hx(gw.as_bytes()), "owner": hx(owner.as_bytes()), "gwnow": gwnow, "retention": 2, "domain": hx(&domain),
             "gwdelay": 0, "gwop": hx(owner.as_bytes()), "signers": [hx(&set.encode(0))], "chain": hx(&gchain), "gaddr": hx(&gaddr), "min_delay": min_delay,
@@ -71,6 +72,7 @@ pub fn run(seed: u64, ntraces: usize) {
         ];
         let mut steps: Vec<Value> = vec![];
         let mut pending: Vec<Pending> = vec![];
+        let mut credited: Vec<(VMAddress, Vec<u8>, u64)> = vec![];     // (dispatcher, token, nonce) of failed dispatches: likely outstanding credits
         let mut next_id: u64 = 0;
         let mut msg_counter = 0u64;
         let mut sent_cmds: Vec<(Vec<u8>, Vec<u8>, Vec<u8>, Vec<u8>)> = vec![];   // (chain, id, src, payload) of executed commands, for replays
@@ -97,6 +99,7 @@ pub fn run(seed: u64, ntraces: usize) {
             let k = if forced.is_some() { k }
                     else if has_delivered && r.chance(1, 3) { 15 }
                     else if has_undelivered && r.chance(1, 3) { 12 }
+                    else if !credited.is_empty() && r.chance(1, 5) { 17 }
                     else { *r.pick(&[0u64, 1, 2, 3, 4, 5, 6, 6, 6, 7, 8, 9, 9, 10, 17, 18, 19]) };
             let mut opj: Value; let step: Step;
             if k == 100 || k < 6 {
@@ -140,7 +143,8 @@ pub fn run(seed: u64, ntraces: usize) {
                 let pi = if let Some(("exec", fpi, _, _)) = forced { fpi } else if !ready.is_empty() && r.chance(3, 4) { *r.pick(&ready) } else if !waiting.is_empty() && r.chance(1, 2) { *r.pick(&waiting) } else { r.below(props.len() as u64) as usize };
                 let p = props[pi].clone();
                 let caller = if operator_path { if forced.is_some() || r.chance(4, 5) { cur_op.clone() } else { anyone.clone() } } else { anyone.clone() };
-                let (egld, esdt): (u64, Vec<(Vec<u8>, u64, BigUint)>) = match r.below(6) {
+                let (egld, esdt): (u64, Vec<(Vec<u8>, u64, BigUint)>) = match r.below(8) {
+                    6 => (0, vec![(sft.clone(), 5, bn(7))]), 7 => (0, vec![(sft.clone(), 5, bn(2)), (sft.clone(), 6, bn(3)), (tok.clone(), 0, bn(1))]),
                     0 => (7, vec![]), 1 => (0, vec![(tok.clone(), 0, bn(11))]), 2 => (0, vec![(tok.clone(), 0, bn(5)), (tok2.clone(), 0, bn(6))]),
                     3 => (0, vec![(tok.clone(), 0, bn(3)), (tok.clone(), 0, bn(4))]), _ => (0, vec![]) };
                 let mut value = p.value; if forced.is_none() && r.chance(1, 12) { value += 1; }     // other value: different proposal
@@ -186,11 +190,17 @@ pub fn run(seed: u64, ntraces: usize) {
                 let p = pending.remove(i);
                 let cb = async_promise_callback_tx_input(&p.promise, p.result.as_ref().unwrap(), &w.r.blockchain_mock.vm.builtin_functions);
                 step = w.run_input(cb);
+                if p.result.as_ref().unwrap().result_status != 0 {
+                    let es = p.pay["esdt"].as_array().cloned().unwrap_or_default();
+                    if es.is_empty() { credited.push((p.caller.clone(), b"EGLD".to_vec(), 0)); }
+                    for e in es { credited.push((p.caller.clone(), hex::decode(e[0].as_str().unwrap()).unwrap(), e[1].as_u64().unwrap())); }
+                }
                 opj = json!({"op": "callback", "id": p.id, "prop": p.prop, "delivered_ok": p.result.as_ref().unwrap().result_status == 0,
                              "operator": p.operator, "dispatcher": hx(p.caller.as_bytes()), "pay": p.pay, "key": p.key});
             } else if k < 18 {
-                let caller = anyone.clone();
-                let (tk, nonce) = match r.below(4) { 0 => (b"EGLD".to_vec(), 0u64), 1 => (tok2.clone(), 0), _ => (tok.clone(), 0) };
+                let mut caller = anyone.clone();
+                let (mut tk, mut nonce) = match r.below(7) { 0 => (b"EGLD".to_vec(), 0u64), 1 => (tok2.clone(), 0), 2 => (sft.clone(), 5), 3 => (sft.clone(), 6), 4 => (sft.clone(), 0), _ => (tok.clone(), 0) };
+                if !credited.is_empty() && r.chance(2, 3) { let (cu, ct, cn) = r.pick(&credited).clone(); caller = cu; tk = ct; nonce = cn; if r.chance(1, 6) { caller = anyone.clone(); } }
                 let mut arg = nested_buf(&tk); arg.extend_from_slice(&nonce.to_be_bytes());
                 step = w.call0(&caller, &gov, "withdrawRefundToken", vec![arg]);
                 opj = json!({"op": "withdrawRefund", "caller": hx(caller.as_bytes()), "token": hx(&tk), "nonce": nonce});
